@@ -490,6 +490,9 @@ def check_encode_cat(ctx, n_cases):
             ctx.fail(["encode-cat", "source-rows-modified"], "EncodeCatRows(%r) changed the rows it was given: %r -> %r" % (tipe, before, norm(rows)), case); continue
         if first != second:
             ctx.fail(["encode-cat", "second-pass-differs"], "EncodeCatRows(%r): a second pass over the same rows gives %r, the first gave %r" % (tipe, second, first), case); continue
+        if kind == "list" and tipe == "onehot" and shared is None:      # rows with collections nested to any depth: the extracted model of the recursion
+            def wire(x): return [1, list(x.levels).index(str(x)), len(x.levels)] if isinstance(x, Categorical) else [2, [wire(y) for y in x]] if isinstance(x, (list, tuple)) else [0, x]
+            for r, f in zip(rows, first): model_reqs.append((313, wire(r))); model_metas.append((case, f))
         if kind == "list" and shape == "flat" and tipe == "onehot":      # the in-place editing loop, statement by statement in the extracted model
             for r, f in zip(rows, first):
                 if all(isinstance(x, (int, Categorical)) for x in r) and all(isinstance(x, int) for x in f):
